@@ -509,6 +509,12 @@ impl<R: Read> BufRead for StreamBufferedReader<R> {
 
 impl<R: Read + Seek> Seek for StreamBufferedReader<R> {
     fn seek(&mut self, pos: SeekFrom) -> io::Result<u64> {
+        // The inner reader is ahead of the logical position by the buffered-but-unread
+        // bytes: a relative seek has to be corrected by that amount.
+        let pos = match pos {
+            SeekFrom::Current(delta) => SeekFrom::Current(delta - (self.end - self.pos) as i64),
+            other => other,
+        };
         // For seek operations, we need to invalidate the buffer
         self.pos = 0;
         self.end = 0;
